@@ -42,6 +42,9 @@ func ruleMappingRule(c *Ctx, r *Report, rule string) {
 func checkC05(c *Ctx, r *Report) {
 	ruleMappingRule(c, r, "mapping-rule")
 	ruleEndBlock(c, r, "blocks-reach-result")
+	// the values copied are the ones the source assigned: SETFIELD writes the innermost open block only, a read finds
+	// the nearest enclosing definition
+	ruleFieldAccess(c, r, "field-values")
 	ruleStringOpaque(c, r, "string-literal-scan")
 	ruleNoCoercion(c, r, "no-coercion")
 	ruleReflectGuards(c, r, "fresh-slice-and-guards")
